@@ -6,6 +6,7 @@ import (
 	"context"
 	"fmt"
 	"io"
+	"strconv"
 	"strings"
 	"sync"
 	"time"
@@ -13,6 +14,7 @@ import (
 	"github.com/cloudwego/hertz/pkg/app"
 	"github.com/cloudwego/hertz/pkg/common/config"
 	"github.com/cloudwego/hertz/pkg/network/standard"
+	"github.com/cloudwego/hertz/pkg/protocol"
 	"github.com/cloudwego/hertz/pkg/route"
 
 	"github.com/cloudwego/hertz/pkg/app/server"
@@ -27,7 +29,7 @@ import (
 func main() {
 	mon.Main(&mon.Spec{
 		ID: "C14",
-		Rule: "each case = one connection with a POST whose body (length 0..70000, Content-Length or chunked with seeded chunk sizes, position-coded, optionally carrying request-looking text '0 CRLF CRLF GET /smuggled-<id> ...' right at the point where the handler stops) is consumed by a consumption program (read-size sequence, stop after k bytes or read to the end) and followed by a pipelined probe request, under seeded segmentation; family exh enumerates every stop point (incl. 0 and mid-chunk) of bodies up to 64 bytes; family stall ends the input right after the body and stalls, so a read that needs bytes beyond the body shows as a blocked handler; " +
+		Rule: "each case = one connection with a POST whose body (length 0..70000, Content-Length or chunked with seeded chunk sizes, position-coded, optionally carrying request-looking text '0 CRLF CRLF GET /smuggled-<id> ...' right at the point where the handler stops) is consumed by a consumption program (read-size sequence, stop after k bytes or read to the end) and followed by a pipelined probe request, under seeded segmentation; family exh enumerates every stop point (incl. 0 and mid-chunk) of bodies up to 64 bytes; family stall ends the input right after the body and stalls, so a read that needs bytes beyond the body shows as a blocked handler; family framing puts the disturbance into the chunk framing itself (a one-off read timeout at any byte of size lines, CRLFs and the last chunk of multi-chunk bodies whose data begins like framing followed by a request; a missing CRLF after chunk data; an Expect: 100-continue upload refused by ContinueHandler while the body is already on the wire); family timed-stall repeats the size-line stall against real servers with a 300 ms read timeout on both transports; " +
 			"distinct = hash of (body length, encoding, chunk sizes, stop point, read sizes, segmentation policy); non-trivial = handler stops before the end or the body crosses 4096 bytes",
 		Assumptions: []string{
 			"loopback family: the same cases over real TCP against real servers on the standard and netpoll transports (fragmentation best effort)",
@@ -41,7 +43,7 @@ func main() {
 			return 8
 		},
 		Floors: func(t string) map[string]int64 {
-			return map[string]int64{"connections": 4000, "probe_served_after_partial_read": 300, "stop_points_enumerated": 1000, "stall_cases_handler_finished": 300, "aborted_connections": 1000, "loopback_connections_netpoll": 300}
+			return map[string]int64{"connections": 4000, "probe_served_after_partial_read": 300, "stop_points_enumerated": 1000, "stall_cases_handler_finished": 300, "aborted_connections": 1000, "loopback_connections_netpoll": 300, "framing_connections_stall": 1000, "framing_connections_broken": 500, "framing_connections_refused": 500, "timed_stall_connections_netpoll": 10}
 		},
 		Work: work,
 	})
@@ -243,6 +245,108 @@ func work(w *mon.W) {
 	// but replaces / drops / fails to copy; the bytes still on the wire read like a request
 	w.Cases("replaced", uint64(w.Pick(3000, 60000)), func(c *mon.Case) { replacedCase(w, c, e, st) })
 	w.Cases("stall-resume", uint64(w.Pick(3000, 60000)), func(c *mon.Case) { stallResume(w, c, e, st) })
+	refusing := rig.NewEngine(opt, func(e *route.Engine) {
+		e.NoRoute(handler(st))
+		e.ContinueHandler = func(*protocol.RequestHeader) bool { return false }
+	})
+	w.Cases("framing", uint64(w.Pick(6000, 120000)), func(c *mon.Case) { framingCase(w, c, e, refusing, st) })
+	// timed-stall: real servers with a short read timeout (netpoll: per blocking call;
+	// standard: a deadline), a peer that goes silent for one and a half timeouts in the
+	// middle of a chunk-size line and then sends the rest.  Real time only sets the scene;
+	// the verdict is over which handlers ran and what they read.
+	var timed = map[bool]*lbs{}
+	defer func() {
+		for _, x := range timed {
+			if x != nil {
+				x.s.Stop()
+			}
+		}
+	}()
+	w.Cases("timed-stall", uint64(w.Pick(32, 400)), func(c *mon.Case) {
+		r := c.R
+		np := !r.Chance(4)
+		x, ok := timed[np]
+		if !ok {
+			lst := &state{}
+			srv, err := loop.Start(np, func(h *server.Hertz) { h.NoRoute(handler(lst)) }, server.WithStreamBody(true), server.WithReadTimeout(300*time.Millisecond))
+			if err != nil {
+				w.Note("timed-stall server did not start: " + err.Error())
+				timed[np] = nil
+				return
+			}
+			x = &lbs{srv, lst}
+			timed[np] = x
+		}
+		if x == nil {
+			return
+		}
+		id := c.G*1000 + uint64(r.Intn(1000))
+		size := r.Int(0x100, 0x30, 0x200, 0x1000, 0x110)
+		line := fmt.Sprintf("%x", size)
+		cut := 1 + r.Intn(len(line)-1+1) // after the k-th digit (or after all of them)
+		if cut > len(line) {
+			cut = len(line)
+		}
+		data := wire.PosBody(int(id%50), size)
+		plant := r.Str("\r\n0\r\n\r\n", "\r\n", "0\r\n\r\n") + fmt.Sprintf("GET /smuggled-%d HTTP/1.1\r\nHost: x\r\n\r\n", id)
+		at := r.Int(0, 16, 3)
+		if cut < len(line) && !r.Chance(4) {
+			// where the chunk would end if the digit that arrives after the silence got lost
+			if n, err := strconv.ParseInt(line[:cut]+line[cut+1:], 16, 32); err == nil {
+				at = int(n)
+				plant = "\r\n0\r\n\r\n" + fmt.Sprintf("GET /smuggled-%d HTTP/1.1\r\nHost: x\r\n\r\n", id)
+			}
+		}
+		if at+len(plant) <= size {
+			copy(data[at:], plant)
+		}
+		head := fmt.Sprintf("POST /body-%d HTTP/1.1\r\nHost: x\r\nTransfer-Encoding: chunked\r\n\r\n", id)
+		first := head + line[:cut]
+		second := line[cut:] + "\r\n" + string(data) + "\r\n0\r\n\r\n" + fmt.Sprintf("GET /probe-%d HTTP/1.1\r\nHost: x\r\n\r\n", id)
+		x.st.mu.Lock()
+		x.st.cur, x.st.got, x.st.gotErr, x.st.paths, x.st.done, x.st.hasDone = plan{stopAfter: -1, readSizes: []int{r.Int(7, 100, 4096)}}, nil, nil, nil, nil, false
+		x.st.mu.Unlock()
+		c.Detail = func() interface{} {
+			return map[string]interface{}{"family": "timed-stall", "netpoll": np, "chunk_size_line": line, "silence_after_digits": cut, "planted": plant, "planted_at": at}
+		}
+		want := fmt.Sprintf("ok:/probe-%d", id)
+		out, closed, _ := x.s.Exchange([][]byte{[]byte(first), []byte(second)}, 450*time.Millisecond, 5*time.Second, func(out []byte) bool { return bytes.HasSuffix(out, []byte(want)) })
+		w.Count("timed_stall_connections", 1)
+		if np {
+			w.Count("timed_stall_connections_netpoll", 1)
+		}
+		// let a handler that is still running finish before its record is read
+		time.Sleep(50 * time.Millisecond)
+		x.st.mu.Lock()
+		got, gotErr, paths := x.st.got, x.st.gotErr, append([]string{}, x.st.paths...)
+		x.st.mu.Unlock()
+		for _, p := range paths {
+			switch p {
+			case fmt.Sprintf("POST /body-%d", id), fmt.Sprintf("GET /probe-%d", id):
+			default:
+				key := "desync"
+				if strings.Contains(p, "/smuggled-") {
+					key = "smuggled-request"
+				}
+				c.Violate(key, "timed-stall (netpoll=%v): size line %q, the peer went silent after %d digit(s) for 1.5 read timeouts: a handler ran for %q, which is not one of the requests sent", np, line, cut, p)
+				return
+			}
+		}
+		if !bytes.HasPrefix(data, got) {
+			c.Violate("stream-content", "timed-stall (netpoll=%v): size line %q cut after %d: bytes read (%d) are not a prefix of the body", np, line, cut, len(got))
+			return
+		}
+		if len(got) < len(data) && len(paths) > 0 && (gotErr == nil || gotErr == io.EOF) {
+			c.Violate("stream-eof", "timed-stall (netpoll=%v): size line %q cut after %d: reading ended after %d of %d body bytes with %v", np, line, cut, len(got), len(data), gotErr)
+			return
+		}
+		if bytes.HasSuffix(out, []byte(want)) {
+			w.Count("timed_stall_probe_served", 1)
+		} else if closed {
+			w.Count("timed_stall_closed", 1)
+		}
+		w.Shape(mon.Hash64("timed-stall", np, line, cut, plant, at))
+	})
 	// after-abort: first a connection whose peer vanishes in the middle of a streamed body
 	// that the handler read only partly (draining it fails), then — on a new connection of
 	// the same engine, which recycles the pooled stream objects — an ordinary case
@@ -849,4 +953,211 @@ func stallCase(w *mon.W, c *mon.Case, e *route.Engine, st *state) {
 		return
 	}
 	w.Shape(mon.Hash64("stall", L, chunked, fmt.Sprint(used), stop, fmt.Sprint(pl.readSizes), policy, buf))
+}
+
+// framingCase: chunked bodies of several chunks whose data begins like chunk framing
+// followed by a request, with the disturbance placed in the framing itself:
+//
+//	stall   – the peer stalls past the read timeout at an arbitrary byte of the body's wire
+//	          form (inside a chunk-size line, between data and CRLF, inside the last chunk)
+//	          and then sends the rest;
+//	broken  – the CRLF after one chunk's data is missing (the framing is broken, the
+//	          handler is told so by a failed read): nothing that follows is a request;
+//	refused – an Expect: 100-continue upload that the engine's ContinueHandler refuses
+//	          while the client has sent the body anyway.
+func framingCase(w *mon.W, c *mon.Case, e, refusing *route.Engine, st *state) {
+	r := c.R
+	id := c.G*1000 + uint64(r.Intn(1000))
+	mode := r.Str("stall", "stall", "broken", "refused")
+	viaBody := r.Chance(3)
+	path := fmt.Sprintf("/body-%d", id)
+	if viaBody {
+		path = fmt.Sprintf("/viabody-%d", id)
+	}
+	plants := []string{
+		fmt.Sprintf("\r\nGET /smuggled-%d HTTP/1.1\r\nHost: x\r\n\r\n", id),
+		fmt.Sprintf("0\r\n\r\nGET /smuggled-%d HTTP/1.1\r\nHost: x\r\n\r\n", id),
+		fmt.Sprintf("\r\n0\r\n\r\nGET /smuggled-%d HTTP/1.1\r\nHost: x\r\n\r\n", id),
+		fmt.Sprintf("GET /smuggled-%d HTTP/1.1\r\nHost: x\r\n\r\n", id),
+	}
+	var wb bytes.Buffer
+	var body []byte
+	type span struct{ sizeLine, data, crlf int } // wire offsets (relative to the body's wire form)
+	var spans []span
+	nch := 1 + r.Intn(4)
+	var sizes []int
+	for i := 0; i < nch; i++ {
+		sizes = append(sizes, r.Int(0x10, 0x30, 0x40, 0x100, 0x200, 0x1000, 1+r.Intn(300), 60+r.Intn(40)))
+	}
+	var bw bytes.Buffer
+	for _, n := range sizes {
+		sp := span{sizeLine: bw.Len()}
+		fmt.Fprintf(&bw, "%x\r\n", n)
+		sp.data = bw.Len()
+		d := wire.PosBody(int(id%50)+len(body), n)
+		if p := plants[r.Intn(len(plants))]; len(p) <= n && !r.Chance(4) {
+			copy(d, p)
+		}
+		body = append(body, d...)
+		bw.Write(d)
+		sp.crlf = bw.Len()
+		bw.WriteString("\r\n")
+		spans = append(spans, sp)
+	}
+	lastChunk := bw.Len()
+	bw.WriteString("0\r\n\r\n")
+	bodyWire := bw.Bytes()
+	expect := ""
+	eng := e
+	if mode == "refused" {
+		expect = "Expect: 100-continue\r\n"
+		eng = refusing
+	}
+	// what the handler may see of the body
+	visible := body
+	switch mode {
+	case "broken":
+		// the CRLF after chunk k is left out
+		k := r.Intn(len(spans))
+		cut := spans[k].crlf
+		bodyWire = append(append([]byte{}, bodyWire[:cut]...), bodyWire[cut+2:]...)
+		n := 0
+		for i := 0; i <= k; i++ {
+			n += sizes[i]
+		}
+		visible = body[:n]
+	case "refused":
+		if r.Bool() {
+			// the same upload with a fixed length
+			bodyWire = append([]byte{}, body...)
+		}
+	}
+	if mode == "refused" && len(bodyWire) == len(body) {
+		fmt.Fprintf(&wb, "POST %s HTTP/1.1\r\nHost: x\r\n%sContent-Length: %d\r\n\r\n", path, expect, len(body))
+	} else {
+		fmt.Fprintf(&wb, "POST %s HTTP/1.1\r\nHost: x\r\n%sTransfer-Encoding: chunked\r\n\r\n", path, expect)
+	}
+	head := wb.Len()
+	wb.Write(bodyWire)
+	reqWire := wb.Bytes()
+	probe := fmt.Sprintf("GET /probe-%d HTTP/1.1\r\nHost: x\r\n\r\n", id)
+	stream := append(append([]byte{}, reqWire...), probe...)
+	frags, policy := wire.FragSchedule(r, stream, []int{len(reqWire)})
+	buf := r.Int(4096, 4096, 100, 8192)
+	st.mu.Lock()
+	st.cur, st.got, st.gotErr, st.paths, st.done, st.hasDone = plan{stopAfter: -1, readSizes: []int{r.Int(7, 100, 4096, 32768), 1 + r.Intn(9000)}}, nil, nil, nil, nil, false
+	st.mu.Unlock()
+	sc := sconn.New(frags, sconn.EOF)
+	stallOff := -1
+	if mode == "stall" {
+		// anywhere in the wire form of the body; half of the time inside a piece of framing
+		stallOff = 1 + r.Intn(len(bodyWire)-1)
+		if r.Bool() {
+			sp := spans[r.Intn(len(spans))]
+			switch r.Intn(4) {
+			case 0:
+				stallOff = sp.sizeLine + 1 + r.Intn(sp.data-sp.sizeLine-1) // inside the size line
+			case 1:
+				stallOff = sp.crlf + r.Intn(2) // before / inside the CRLF after the data
+			case 2:
+				stallOff = lastChunk + r.Intn(5)
+			default:
+				stallOff = sp.data + r.Intn(3)
+			}
+			if stallOff < 1 {
+				stallOff = 1
+			}
+		}
+		sc.TimeoutAfterBytes = head + stallOff
+	}
+	c.KeyTag = ""
+	c.Detail = func() interface{} {
+		return map[string]interface{}{"family": "framing", "mode": mode, "chunk_sizes": sizes, "via_body_accessor": viaBody, "timeout_after_body_wire_bytes": stallOff, "policy": policy, "buf": buf, "request_wire_head": trunc(string(reqWire), 400)}
+	}
+	res := rig.Serve(eng, sc, buf, false, 15*time.Second)
+	w.Count("framing_connections_"+mode, 1)
+	if res.Hang {
+		c.Violate("hang", "Serve did not finish on a finite input\n%s", trunc(res.Stack, 2500))
+		return
+	}
+	if res.Panic != nil {
+		c.Violate(mon.PanicKey(res.Stack), "panic: %v\n%s", res.Panic, trunc(res.Stack, 2000))
+		return
+	}
+	st.mu.Lock()
+	got, gotErr, paths := st.got, st.gotErr, append([]string{}, st.paths...)
+	st.mu.Unlock()
+	handlerRan := false
+	np := 0
+	for _, p := range paths {
+		switch p {
+		case "POST " + path:
+			handlerRan = true
+		case fmt.Sprintf("GET /probe-%d", id):
+			np++
+		default:
+			key := "desync"
+			if strings.Contains(p, "/smuggled-") {
+				key = "smuggled-request"
+			}
+			c.Violate(key, "framing/%s: a handler ran for %q, which is not one of the requests sent (chunk sizes %v, stall after %d bytes of the body's wire form)", mode, p, sizes, stallOff)
+			return
+		}
+	}
+	out := string(res.Out)
+	nresp := strings.Count(out, "HTTP/1.1 ")
+	switch mode {
+	case "stall":
+		if handlerRan {
+			switch {
+			case !bytes.HasPrefix(body, got):
+				c.Violate("stream-content", "framing/stall: bytes read (%d) are not a prefix of the body (err=%v; chunk sizes %v, stall after %d wire bytes)", len(got), gotErr, sizes, stallOff)
+				return
+			case len(got) < len(body) && (gotErr == nil || gotErr == io.EOF) && !(viaBody && len(got) == 0):
+				c.Violate("stream-eof", "framing/stall: reading ended after %d of %d body bytes with %v although the peer only stalled and then sent the rest (chunk sizes %v, stall after %d wire bytes)", len(got), len(body), gotErr, sizes, stallOff)
+				return
+			}
+			if len(got) == len(body) {
+				w.Count("framing_stall_body_read_completely", 1)
+			} else {
+				w.Count("framing_stall_handler_saw_the_timeout", 1)
+			}
+		}
+		switch {
+		case np == 1 && strings.HasSuffix(out, "ok:/probe-"+fmt.Sprint(id)):
+			w.Count("framing_stall_probe_served", 1)
+		case np == 0 && nresp <= 1:
+			w.Count("framing_stall_closed", 1)
+		default:
+			c.Violate("closed-but-more", "framing/stall: probe served %d times, %d responses written: %q", np, nresp, trunc(out, 300))
+			return
+		}
+	case "broken":
+		if handlerRan {
+			switch {
+			case !bytes.HasPrefix(visible, got) && !(viaBody && len(got) == 0):
+				c.Violate("stream-content", "framing/broken: bytes read (%d) are not a prefix of the chunks before the break (%d bytes) (err=%v)", len(got), len(visible), gotErr)
+				return
+			case gotErr == nil || gotErr == io.EOF:
+				c.Violate("stream-eof", "framing/broken: the body's chunk framing is broken after %d bytes, the handler read %d bytes and was told %v", len(visible), len(got), gotErr)
+				return
+			}
+		}
+		if np != 0 {
+			c.Violate("served-after-broken-framing", "framing/broken: the chunk framing of the upload is broken (no CRLF after the data of a chunk), yet the connection went on and served the bytes after it as a request (%d responses)", nresp)
+			return
+		}
+		w.Count("framing_broken_closed", 1)
+	case "refused":
+		switch {
+		case np == 1 && strings.HasSuffix(out, "ok:/probe-"+fmt.Sprint(id)):
+			w.Count("framing_refused_body_drained", 1)
+		case np == 0:
+			w.Count("framing_refused_closed", 1)
+		default:
+			c.Violate("closed-but-more", "framing/refused: probe served %d times, %d responses written: %q", np, nresp, trunc(out, 300))
+			return
+		}
+	}
+	w.Shape(mon.Hash64("framing", mode, fmt.Sprint(sizes), viaBody, stallOff, policy, buf))
 }
